@@ -44,7 +44,7 @@ class Family:
             n.content.append(self.text(lab + '_t'))
         return n
 
-def family_one_level(f, docs=1, occ=3, slots=2, attrs=1, text=True, noise=False, gslots=0, pool=3, leaf_attrs=0, leaf_form=True, p_form=True, first_present=True, gpool=2):
+def family_one_level(f, docs=1, occ=3, slots=2, attrs=1, text=True, noise=False, gslots=0, pool=3, names=None, anames=None, leaf_attrs=0, leaf_form=True, p_form=True, first_present=True, gpool=2):
     """K documents <r> ; each has `occ` occurrence slots of <p> (first present, others symbolic); each <p> has `slots` child slots with names from a pool,
     optional text/CDATA slot, attribute slots; each child may have `gslots` grandchildren"""
     out = []
@@ -53,9 +53,9 @@ def family_one_level(f, docs=1, occ=3, slots=2, attrs=1, text=True, noise=False,
         if noise: root.content.append(f.noise('d%d_n0' % d))
         for o in range(occ):
             lab = 'd%d_p%d' % (d, o)
-            p = Node('p', present=True if (o == 0 and d == 0 and first_present) else f.B(lab + '_p'), empty=f.B(lab + '_e') if p_form else False, attrs=f.attrs(lab, attrs), label=lab)
+            p = Node('p', present=True if (o == 0 and d == 0 and first_present) else f.B(lab + '_p'), empty=f.B(lab + '_e') if p_form else False, attrs=f.attrs(lab, attrs, anames or APOOL), label=lab)
             for s in range(slots):
-                c = f.leaf('%s_c%d' % (lab, s), POOL[:pool], attrs=leaf_attrs, text=False, form=leaf_form)
+                c = f.leaf('%s_c%d' % (lab, s), names or POOL[:pool], attrs=leaf_attrs, text=False, form=leaf_form)
                 if gslots:
                     c.empty = f.B('%s_c%d_e' % (lab, s)) if leaf_form else False
                     for g in range(gslots): c.content.append(f.leaf('%s_c%d_g%d' % (lab, s, g), POOL[:gpool], form=False))
